@@ -118,6 +118,34 @@ PROPS["C19"] = {
     "trusted_base": ["model MsiModel/Expr.lean::fmtP", "Gen/Expr.lean regenerated from src/internal/expr.rs", "harness/src/reader.rs (ladder reader)"],
     "assumptions": ["string literals without characters needing escapes; column names that are not keywords (the property's domain)"],
 }
+PROPS["C14"] = {
+    "module": "MsiProofs.Props.C14",
+    "gen": ["codepage"],
+    "profiles": ["release"],
+    "theorems": [
+        "MsiProofs.C14.id_fromId", "MsiProofs.C14.fromId_id", "MsiProofs.C14.fromId_zero", "MsiProofs.C14.fromId_unknown",
+        "MsiProofs.C14.wiring", "MsiProofs.C14.decode_no_bom_sniffing", "MsiProofs.C14.encChunk_spec",
+        "MsiProofs.C14.encode_is_concat", "MsiProofs.C14.encodeSpec_append", "MsiProofs.C14.per_char_law",
+        "MsiProofs.C14.utf8_encode", "MsiProofs.C14.utf8_lossless", "MsiProofs.C14.ascii_concat",
+        "MsiProofs.C14.ascii_per_char", "MsiProofs.C14.ascii_decode_total",
+    ],
+    "level_text": "Lean theorems about the repository's own logic: id/from_id mutually inverse and id 0 = default (decide over tables regenerated "
+                  "from codepage.rs), every id wired to the encoding its name promises, no BOM sniffing in decode, the chunked encoder loop equals the "
+                  "concatenation of per-character codes for every per-character encoder, every buffer size holding one code and every string length "
+                  "(with termination), UTF-8 lossless (core's decoder), ASCII laws. The per-character tables are encoding_rs data: their law is a "
+                  "finite statement decided by complete enumeration of all 1,112,064 scalars x 26 pages on the real implementation in every run.",
+    "level_note": "Trusted: Lean kernel; translator; the contract of Encoder::encode_from_utf8_without_replacement as modelled by encChunk "
+                  "(validated at the 1024-byte boundary for 10 pages); encoding_rs tables (enumerated, not proved). 28591 is wired to windows-1252 "
+                  "because encoding_rs has no ISO-8859-1; accepted in the expected wiring and stated in DESIGN.md.",
+    "technique": "Lean 4 proof (loop = concatenation by induction; decide on regenerated tables) + complete finite enumeration on the real code",
+    "exhaustive": True,
+    "rule": "cp_id for 26 pages; from_id for all 0..65535 and wrap-around neighbours; complete scalar sweep and 1-/2-byte decode sweep per page (in-process, "
+            "oracle-only); strings straddling the 1024-byte buffer with multi-byte/unmappable characters at every offset 1020..1026 (thorough 1015..1032) "
+            "for 10 pages, model loop vs real; seeded random strings for all pages; random bytes through ASCII decode. non-trivial = distinct "
+            "(page, length) classes + sweeps + known ids",
+    "trusted_base": ["model MsiModel/CodePage.lean", "Gen/CodePage.lean regenerated from src/internal/codepage.rs", "encoding_rs 0.8.41 per-character tables (enumerated)"],
+    "assumptions": ["encoding_rs's encode_from_utf8_without_replacement consumes an unmappable character and reports OutputFull only when the next code does not fit"],
+}
 
 # reasons for properties not claimed (yet); everything else defaults to "not yet built"
 NOT_CLAIMED = {}
